@@ -1209,11 +1209,19 @@ def check_api_fields(spec, blob: bytes) -> None:
             'crit': sorted((n, sstr(v)) for n, _, v in spec['crit']),
             'ext': sorted((n, b'') for n, _, _ in spec['ext'])}
 
-    # order of options inside the certificate is not asserted (asyncssh
-    # emits no-touch-required after permit-user-rc; PROTOCOL.certkeys asks
-    # for lexical order but no verifier depends on it)
-    got['crit'] = sorted(got['crit'])
-    got['ext'] = sorted(got['ext'])
+    # PROTOCOL.certkeys: "The contents of critical options / extensions
+    # ... must be lexically ordered by name if they appear in the sequence";
+    # independent readers refuse a certificate that is not (PyCA: "Fields
+    # not lexically sorted")
+    for k in ('crit', 'ext'):
+        names = [n for n, _ in got[k]]
+
+        if names != sorted(names):
+            raise Violation('generated-cert', 'the %s of the generated '
+                            'certificate are not in lexical order: %r' %
+                            ({'crit': 'critical options',
+                              'ext': 'extensions'}[k], names),
+                            'generated-cert:order:' + k)
 
     for k, v in want.items():
         if got[k] != v:
